@@ -67,11 +67,11 @@ def _one(case, vecu):
             flat = [e for o in case["ops"] for e in vecu.expand(tuple(o))]
             for o in flat:
                 session = d.server.state.session
-                b = vecu.resolve(tuple(o), d.model, session, d.prev, d.last_seed)
+                b = vecu.resolve(tuple(o), d.model, session, d.prev, d.last_seed, d.seen_seed)
                 if not b:
                     continue
-                is_key = o[0] in ("seedkey", "stalekey_key") and d.last_seed is not None
-                empty_seed = is_key and len(d.last_seed[1]) == 0
+                is_key = o[0] in ("seedkey", "stalekey_key") and (d.last_seed is not None or d.seen_seed is not None)
+                empty_seed = is_key and len((d.last_seed or d.seen_seed)[1]) == 0
                 reply, err = d.request(b)
                 if err is not None:
                     tr.append([b.hex(), f"EXC {type(err).__name__}"])
